@@ -313,6 +313,33 @@ impl Prop for C06 {
 				}
 			}
 		}
+		// deep dot-segment stacks: k leading '..' (kept against a rootless base, dropped at a root) or k plain
+		// segments, on both sides of the 16-entry inline stack and its doublings, followed by short tails with '..'
+		{
+			let mut gi = 0usize;
+			for k in (0..=40usize).chain([63, 64, 65, 127, 128, 129, 255, 256, 257]) {
+				for tail in ["a/../b", "a/..", "a/b/../..", "a/./../b/..", "..", "a/../../b", "./a/..", "a"] {
+					for (base, ups) in [("s:x", true), ("s:", true), ("s:x/y", true), ("s:/x", true), ("s://h/x/y", true), ("s:x", false), ("s://h", false), ("s:/", false)] {
+						gi += 1;
+						if gi % nshards != shard {
+							continue;
+						}
+						let lead: String = if ups { "../".repeat(k) } else { (0..k).map(|j| format!("s{j}/")).collect() };
+						let fam = if gi % 2 == 0 { Fam::Uri } else { Fam::Iri };
+						if !f(Case { fam, base: base.to_string(), reference: format!("{lead}{tail}") }, true) {
+							return vec![];
+						}
+						// the same deep path behind the reference's OWN scheme (5.2.2 first branch), and as the BASE's path
+						if !f(Case { fam, base: base.to_string(), reference: format!("t:{lead}{tail}") }, true) {
+							return vec![];
+						}
+						if !f(Case { fam, base: format!("s:{lead}{tail}/d"), reference: if ups { "e".to_string() } else { "../e".to_string() } }, true) {
+							return vec![];
+						}
+					}
+				}
+			}
+		}
 		// bases of every shape x every reference path of <= 3 segments over {a, ., .., ''} in every branch
 		let mut bases: Vec<String> = vec![];
 		for au in ["", "//h", "//"] {
